@@ -43,8 +43,8 @@ pub(super) fn parse_str_escape<R: Read>(scanner: &mut Scanner<R>) -> Result<Stri
     scanner.read()?;
 
     match scanner.cur {
-        b'b' => Ok("\x0b".into()),
-        b'f' => Ok("\x0f".into()),
+        b'b' => Ok("\x08".into()),
+        b'f' => Ok("\x0c".into()),
         b'n' => Ok("\n".into()),
         b'r' => Ok("\r".into()),
         b't' => Ok("\t".into()),
